@@ -3,7 +3,7 @@
    (statistics handed to the similarity); real-number spec: Score/BM25_Real.v. *)
 From Coq Require Import ZArith List Reals.
 From Flocq Require Import Core IEEE754.BinarySingleNaN IEEE754.Binary IEEE754.Bits.
-From SA Require Import Score.BM25 Score.BM25_Real Score.BM25_Proofs.
+From SA Require Import Score.BM25 Score.BM25_Real Score.BM25_Proofs Score.BM25_Accuracy2.
 Import ListNotations.
 
 (* documents with tf = 0 score exactly 0 — for ALL parameters (k1 rounding to 0, b rounding to 1, NaN idf ...) *)
@@ -62,3 +62,30 @@ Example C04_kernel_bits_example :
   score_bits [2;1;3;0]%Z [5;3;4;2]%Z 14 4 4604418534313441775 4608083138725491507 4604930618986332160
   = [1053160071; 1051415468; 1056306910; 0]%Z.
 Proof. vm_compute. reflexivity. Qed.
+
+(* ACCURACY ON THE PROPERTY'S DOMAIN: term / phrase frequency and document length any value up to 2^18 (documents are
+   limited to 262143 tokens), avg in [2^-32, 2^18], idf in [2^-64, 2^64], EVERY k1 in [2^-32, 2^10] and EVERY
+   0 <= b < 1 (b = 0, subnormal b, b = 1 - 2^-24 included): the binary32 kernel is within relative error 2^-17
+   (the proof gives 2^-20) of idf*tf/(tf + k1*(1 - b + b*len/avg)). *)
+Theorem C04_accuracy : forall tf dl avg idf k1 b,
+  is_finite 24 128 tf = true -> (1 <= B2R 24 128 tf <= bpow radix2 18)%R ->
+  is_finite 24 128 dl = true -> (B2R 24 128 dl = 0 \/ 1 <= B2R 24 128 dl <= bpow radix2 18)%R ->
+  is_finite 24 128 avg = true -> (bpow radix2 (-32) <= B2R 24 128 avg <= bpow radix2 18)%R ->
+  is_finite 24 128 idf = true -> (bpow radix2 (-64) <= B2R 24 128 idf <= bpow radix2 64)%R ->
+  is_finite 24 128 k1 = true -> (bpow radix2 (-32) <= B2R 24 128 k1 <= bpow radix2 10)%R ->
+  is_finite 24 128 b = true -> (0 <= B2R 24 128 b < 1)%R ->
+  let exact := bm25_R (B2R 24 128 idf) (B2R 24 128 tf) (B2R 24 128 dl) (B2R 24 128 avg)
+                      (B2R 24 128 k1) (B2R 24 128 b) in
+  (Rabs (B2R 24 128 (bm25_one tf dl avg idf k1 b (one_minus b)) - exact) <= bpow radix2 (-17) * Rabs exact)%R.
+Proof. exact bm25_accuracy_wide. Qed.
+Print Assumptions C04_accuracy.
+(* the DEFAULT similarity: k1 = 1.2f, b = 0.75f (the binary32 values the code passes), integer counts, against the
+   formula at the REAL parameters 6/5 and 3/4 *)
+Theorem C04_default_accuracy : forall n m avg idf,
+  (1 <= n <= 262144)%Z -> (0 <= m <= 262144)%Z ->
+  is_finite 24 128 avg = true -> (bpow radix2 (-32) <= B2R 24 128 avg <= bpow radix2 18)%R ->
+  is_finite 24 128 idf = true -> (bpow radix2 (-64) <= B2R 24 128 idf <= bpow radix2 64)%R ->
+  let exact := bm25_R (B2R 24 128 idf) (IZR n) (IZR m) (B2R 24 128 avg) (6 / 5) (3 / 4) in
+  let res := bm25_one (f32_of_Z n) (f32_of_Z m) avg idf k1_default b_default (one_minus b_default) in
+  (Rabs (B2R 24 128 res - exact) <= bpow radix2 (-17) * Rabs exact)%R.
+Proof. exact bm25_default_accuracy_real. Qed.
